@@ -23,7 +23,7 @@
     C12_parse2/3_error_iff, C12_parse2/3_forms_agree   descriptor parsing
     C12_build2_zero_count_empty / C12_build2_total   zero cell count ⇒ Ok(empty map), never a panic (after the
                           repair of D6 in /repo 9dd602d); plain grid: every nx, ny gives a WF map with nx·ny faces
-  and the `NOT PROVED` comment block (after `C12_grid2_area`).
+  and the `NOT PROVED` comment block (after `C12_grid2_area`).  Second part: `Props/C12b.lean`.
 -/
 import Mathlib.Tactic.Ring
 import Mathlib.Algebra.Order.Field.Rat
@@ -679,29 +679,19 @@ example : area2 (0, 0) (1, 0) (1, 1) (0, 1) = 2 := by
   simpa using this
 
 /-
-NOT PROVED: C12_build2_split_ok / C12_build3_ok — the twins of `C12_build2_ok` (proved below for the
-  plain grid): for positive counts and lengths
-    build2 true o (some (nx, ny)) (some (lx, ly)) lens = .ok (buildSplit2 o.1 o.2 nx ny lx ly)
-    build3 false o (some (nx, ny, nz)) (some (lx, ly, lz)) lens = .ok (buildHex3 …)
-  i.e. the mirrored `debug_assert_eq!` on `iter_faces().count() = 2·nx·ny` / `iter_volumes().count() =
-  nx·ny·nz` never fires.  Needs `face_id` / `volume_id` evaluated on those grids (same scheme as
-  `Lemmas/GridFace.lean`).  The cycle/cell structure they would count is proved
-  (`C12_split2_faces`, `C12_hex3_cells`); the counts are compared for every size of the box.
-
-NOT PROVED: C12_hex3_vertices — for `m := buildHex3 ox oy oz nx ny nz lx ly lz`, every dart `d` of cell
-  (ix, iy, iz): m.att 0 (vid3 m d) = some (origin + ((ix+ax)·lx, (iy+ay)·ly, (iz+az)·lz)) with
-  (ax, ay, az) the corner of the local dart (arms of `Gen.hexOffsetArms`), and vertices ↔ the
-  (nx+1)(ny+1)(nz+1) lattice points.  Needs the 3-D `vertex_id` walk (`vertexId3`, marks on pop) on
-  orbits of up to 24 darts and the index decoding of `generate_hex_offset`.
-
-NOT PROVED: C12_hex3_volumes_connected — the converse half of "volumes ↔ cells": any two of the 24
-  darts of a cell are connected through β1/β2 (a finite check on `hexShape`), lifted to the map.
-  Proved: the 24 darts of a cell are closed under β0, β1, β2 (`C12_hex3_cells`) and every dart belongs
-  to exactly one cell (`C12_hex3_darts`), i.e. a volume never leaves its cell.
+NOT PROVED (see also Props/C12b.lean, which proves what used to be listed here: the split / hex
+`build()` results, the 3-D vertex coordinates and lattice bijection, volumes ↔ cells, and all the
+2-D counts):
 
 NOT PROVED: the floating-point reading of all coordinate statements (they are over `Rat`; the
-  correspondence run uses dyadic values for which every f64 operation is exact), in particular
-  `ceil` on quotients that are not exactly representable (DESIGN.md §9).
+  correspondence run uses dyadic values for which every f64 operation is exact).  For the third
+  descriptor form `C12_ceil_count_rounding` (C12b) gives the exact condition under an abstract
+  monotone rounding that fixes the integers; that IEEE-754 division is such a rounding is outside
+  Lean here (no IEEE model installed, DESIGN.md §9/§11).
+
+NOT PROVED: C12_hex3_edge_face_counts — the number of identifiers `iter_edges` / `iter_faces` yield on
+  the hex grid (needs the two-sided `face_id` walk and `edge_id` traversal evaluated on the grid);
+  compared with the implementation for every size of the box.
 -/
 
 /-- `CMapBuilder::build` on a valid 2-D descriptor (positive counts and cell lengths, plain grid)
